@@ -105,6 +105,37 @@ Proof.
     apply negb_true_iff, memz_false in H. contradiction.
 Qed.
 
+Lemma insert_by_In key x l y : In y (insert_by key x l) <-> y = x \/ In y l.
+Proof.
+  induction l as [|z l IH]; cbn [insert_by In].
+  - split; intros [H|[]]; left; auto.
+  - destruct (key z <? key x); cbn [In]; rewrite ?IH; intuition (subst; auto).
+Qed.
+
+Lemma sort_by_In key l y : In y (sort_by key l) <-> In y l.
+Proof.
+  induction l as [|x l IH]; cbn [sort_by In]; [tauto|].
+  rewrite insert_by_In, IH. intuition (subst; auto).
+Qed.
+
+Lemma insert_by_nodup key x l : NoDup l -> ~ In x l -> NoDup (insert_by key x l).
+Proof.
+  induction l as [|z l IH]; cbn [insert_by]; intros ND Hn.
+  - constructor; [intros []|constructor].
+  - inversion ND as [|? ? Hz ND']; subst. destruct (key z <? key x).
+    + constructor.
+      * rewrite insert_by_In. intros [->|H]; [apply Hn; now left|contradiction].
+      * apply IH; auto. intros H. apply Hn. now right.
+    + constructor; auto.
+Qed.
+
+Lemma sort_by_nodup key l : NoDup l -> NoDup (sort_by key l).
+Proof.
+  induction l as [|x l IH]; cbn [sort_by]; intros ND; [constructor|].
+  inversion ND as [|? ? Hn ND']; subst. apply insert_by_nodup; auto.
+  now rewrite sort_by_In.
+Qed.
+
 (* ---- records ------------------------------------------------------------------ *)
 Lemma NoDup_map_filter {A B} (f : A -> B) (p : A -> bool) l :
   NoDup (map f l) -> NoDup (map f (filter p l)).
@@ -155,8 +186,7 @@ Proof.
   set (lg := live_gids popped) in *.
   set (kd := filter (fun g => memz g (killq s)) lg) in *.
   set (wk := filter (fun g => negb (memz g (killq s))) lg) in *.
-  set (ordered := order_by_log log wk) in *.
-  destruct (negb (nondecr _)); [discriminate|].
+  set (ordered := sort_by (dl_of popped) (order_by_log log wk)) in *.
   (* facts about the popped records *)
   assert (Hlg : forall g, In g lg <-> exists rid d, In (mkW rid d (Some g)) (waitq s) /\ d <= tm).
   { intros g. unfold lg. rewrite live_In. split.
@@ -178,10 +208,10 @@ Proof.
   assert (Hkd : forall g, In g kd <-> In g lg /\ memz g (killq s) = true).
   { intros g. unfold kd. now rewrite filter_In. }
   assert (Hwk : forall g, In g ordered <-> In g lg /\ memz g (killq s) = false).
-  { intros g. unfold ordered. rewrite order_by_log_In. unfold wk. rewrite filter_In.
+  { intros g. unfold ordered. rewrite sort_by_In, order_by_log_In. unfold wk. rewrite filter_In.
     now rewrite negb_true_iff. }
   assert (NDo : NoDup ordered).
-  { apply order_by_log_nodup. unfold wk. now apply NoDup_filter. }
+  { apply sort_by_nodup, order_by_log_nodup. unfold wk. now apply NoDup_filter. }
   (* the dropped ones *)
   match type of Hw with context [drop_all ?S kd] => set (s0 := S) in * end.
   destruct (drop_all_spec kd s0) as (s2 & Ed & G2 & K2 & P2 & A2 & Q2 & V2 & T2 & N2 & C2 & D2).
